@@ -122,7 +122,14 @@ pub fn run_stress(case: &Value) -> Value {
                         _ => {}
                     }
                 }
-                drop(w);
+                if it % 3 == 2 {
+                    let _ = std::panic::catch_unwind(std::panic::AssertUnwindSafe(move || {
+                        let _held = w;
+                        panic!("producer panics with the writer alive");
+                    }));
+                } else {
+                    drop(w);
+                }
                 f
             }));
             match r {
